@@ -261,8 +261,9 @@ F("FUNC-separating-tab-indents-summary-continuation", ALLP,
   "indentation (see FUNC-wrapped-summary-indent-drift)",
   ["SummaryKept"], obs=["multi~"], when={"k": FUN, "xo": "septab"})
 F("FUNC-wrapped-summary-indent-drift", ALLP,
-  "function / method with emit_separating_tab: a one-line summary longer than the line is wrapped, and the indentation of its "
-  "continuation line grows with every emit / parse pass (the text never stabilises)",
+  "function / method with emit_separating_tab: when a summary runs over several lines after wrapping (a one-line summary longer "
+  "than the line, or a several-line summary next to an entry that is too long, which triggers the second wrapping pass), the "
+  "indentation of its continuation lines grows with every emit / parse pass (the text never stabilises)",
   ["TextStable"], when={"k": FUN, "xo": "septab", "sumwrap": True})
 F("WRAP-reference-already-deviates", ALLP,
   "the rendering without word wrap already deviates from the description (a clause failed at its own step, reported there); the "
